@@ -94,7 +94,8 @@ class ControllerApplication:
         """Remove the given callback to the request notification stream.
         :param callback: Function to call when a request is received.
         """
-        self._subscribers_request.remove(callback)
+        # all registrations of the callback (in place: a dispatch in progress looks at this list)
+        self._subscribers_request[:] = [cb for cb in self._subscribers_request if cb != callback]
 
     def subscribe_acknowledge(self, callback):
         """Add the given callback from the acknowledge notification stream
